@@ -43,14 +43,14 @@ func vRoundtrip(buf []byte, hdrs []header, last int32, chunk Chunk, opIn OpType,
 	vAssert("at-end", !r.Next())
 }
 
-//@ lemma props=C05,C01
+//@ lemma props=C05
 func vLemmaRoundtripUint16(buf []byte, hdrs []header, last int32, chunk Chunk, op OpType, idx uint32, s int, v uint16) {
 	vRoundtrip(buf, hdrs, last, chunk, op, idx, s, 2,
 		func(b *Buffer, op OpType) { b.writeUint16(op, idx, v) },
 		func(r *Reader) bool { return r.Uint16() == v && r.Int16() == int16(v) && r.Uint() == uint(v) })
 }
 
-//@ lemma props=C05,C01
+//@ lemma props=C05
 func vLemmaRoundtripUint32(buf []byte, hdrs []header, last int32, chunk Chunk, op OpType, idx uint32, s int, v uint32) {
 	vRoundtrip(buf, hdrs, last, chunk, op, idx, s, 4,
 		func(b *Buffer, op OpType) { b.writeUint32(op, idx, v) },
@@ -59,7 +59,7 @@ func vLemmaRoundtripUint32(buf []byte, hdrs []header, last int32, chunk Chunk, o
 		})
 }
 
-//@ lemma props=C05,C01
+//@ lemma props=C05
 func vLemmaRoundtripUint64(buf []byte, hdrs []header, last int32, chunk Chunk, op OpType, idx uint32, s int, v uint64) {
 	vRoundtrip(buf, hdrs, last, chunk, op, idx, s, 8,
 		func(b *Buffer, op OpType) { b.writeUint64(op, idx, v) },
@@ -69,14 +69,14 @@ func vLemmaRoundtripUint64(buf []byte, hdrs []header, last int32, chunk Chunk, o
 		})
 }
 
-//@ lemma props=C05,C01,C11
+//@ lemma props=C05
 func vLemmaRoundtripOperation(buf []byte, hdrs []header, last int32, chunk Chunk, op OpType, idx uint32, s int) {
 	vRoundtrip(buf, hdrs, last, chunk, op, idx, s, 0,
 		func(b *Buffer, op OpType) { b.PutOperation(op, idx) },
 		func(r *Reader) bool { return true })
 }
 
-//@ lemma props=C05,C01
+//@ lemma props=C05
 func vLemmaRoundtripBool(buf []byte, hdrs []header, last int32, chunk Chunk, idx uint32, s int, v bool) {
 	vAssume(idx < 1<<31 && last >= 0 && 0 <= s && s <= len(buf))
 	b := vMkBuffer(buf, hdrs, last, chunk)
@@ -89,7 +89,7 @@ func vLemmaRoundtripBool(buf []byte, hdrs []header, last int32, chunk Chunk, idx
 	vAssert("consumed", r.last == len(r.buffer))
 }
 
-//@ lemma props=C05,C01,C12
+//@ lemma props=C05
 func vLemmaRoundtripBytes(buf []byte, hdrs []header, last int32, chunk Chunk, op OpType, idx uint32, s int, v0 []byte, n uint16) {
 	vAssume(int(n) <= len(v0) && vSeparate(buf, v0))
 	v := v0[:n] // any value of up to 65535 bytes (the length field has two bytes) that is not part of the buffer itself
@@ -102,7 +102,7 @@ func vLemmaRoundtripBytes(buf []byte, hdrs []header, last int32, chunk Chunk, op
 		})
 }
 
-//@ lemma props=C05,C01,C12
+//@ lemma props=C05
 func vLemmaRoundtripString(buf []byte, hdrs []header, last int32, chunk Chunk, op OpType, idx uint32, s int, v0 string, n uint16) {
 	vAssume(int(n) <= len(v0) && vSeparate(buf, toBytes(v0)))
 	v := v0[:n]
@@ -115,7 +115,7 @@ func vLemmaRoundtripString(buf []byte, hdrs []header, last int32, chunk Chunk, o
 
 // The typed wrappers forward to the right width and the typed getters invert them bit for bit.
 //
-//@ lemma props=C05,C01
+//@ lemma props=C05
 func vLemmaTypedWrappers(buf []byte, hdrs []header, last int32, chunk Chunk, opIn OpType, idx uint32, sel uint8,
 	u64 uint64, u32 uint32, u16 uint16) {
 	op := opIn & 0x0f
@@ -215,7 +215,7 @@ func vLemmaAppendOnly(buf []byte, hdrs []header, last int32, chunk Chunk, opIn O
 
 // IndexAtChunk is the offset inside the 16K block (C01: the position every Apply uses).
 //
-//@ lemma props=C05,C01
+//@ lemma props=C05
 func vLemmaIndexAtChunk(off int32) {
 	vAssume(off >= 0)
 	r := &Reader{Offset: off}
